@@ -95,7 +95,7 @@ scalar_t affine_wlearner_t::do_fit(const dataset_t& dataset, const indices_t& sa
 
                       // update the parameters if a better feature
                       const auto score = cache.score(criterion);
-                      if (std::isfinite(score) && score < cache.m_score)
+                      if (is_better(cache, score, feature))
                       {
                           cache.m_score           = score;
                           cache.m_feature         = feature;
